@@ -129,6 +129,11 @@ let parse_case (par : n) (case : string) (runs : rec_run list) : action * node l
   let raw_threads th = List.map (fun x -> if x = "P" then par else n_of_string x) (split ',' th) in
   let cli_threads = ref None in
   Array.iteri (fun i t -> if t = "T" then cli_threads := Some (raw_threads toks.(i + 1))) toks;
+  (* "S r" / "S R": --sortr location / DIVAN_SORTR=location: the order of the case reversed at every level,
+     argument cases included (thread-count branches stay ascending) *)
+  let reversed = ref false in
+  Array.iteri (fun i t -> if t = "S" && (toks.(i + 1) = "r" || toks.(i + 1) = "R") then reversed := true) toks;
+  let ord l = if !reversed then List.rev l else l in
   let kept_tbl : (string, int array) Hashtbl.t = Hashtbl.create 16 in
   let pos = ref 0 in
   let next () = let t = toks.(!pos) in incr pos; t in
@@ -142,7 +147,7 @@ let parse_case (par : n) (case : string) (runs : rec_run list) : action * node l
       let sc = sc_of (next ()) in
       let k = int_of_string (next ()) in
       let kids = List.init k (fun _ -> ()) |> List.map (fun () -> node ()) |> List.filter_map (fun x -> x) in
-      if kids = [] then None else Some (Group (name, sc, kids))
+      if kids = [] then None else Some (Group (name, sc, ord kids))
     | "B" ->
       let ids = next () in
       let id = n_of_string ids in
@@ -173,7 +178,7 @@ let parse_case (par : n) (case : string) (runs : rec_run list) : action * node l
          end
        | Some names ->
          let indexed = List.mapi (fun i nm -> (i, nm)) names in
-         let kept = List.filter (fun (i, _) -> not (Hashtbl.mem drops (ids ^ ":" ^ string_of_int i))) indexed in
+         let kept = ord (List.filter (fun (i, _) -> not (Hashtbl.mem drops (ids ^ ":" ^ string_of_int i))) indexed) in
          if kept = [] then None
          else begin
            let karr = Array.of_list (List.map fst kept) in
@@ -190,7 +195,7 @@ let parse_case (par : n) (case : string) (runs : rec_run list) : action * node l
     | k -> failwith ("node kind " ^ k) in
   if next () <> "N" then failwith "N";
   let k = int_of_string (next ()) in
-  let t = List.filter_map (fun x -> x) (List.map (fun () -> node ()) (List.init k (fun _ -> ()))) in
+  let t = ord (List.filter_map (fun x -> x) (List.map (fun () -> node ()) (List.init k (fun _ -> ())))) in
   let remap id i =
     match Hashtbl.find_opt kept_tbl (string_of_n id) with
     | Some karr when i < Array.length karr -> karr.(i)
